@@ -85,7 +85,7 @@ def _case(draw):
     nfun = draw(st.integers(2, 10))
     for i in range(nfun):
         shape = draw(st.sampled_from(['method', 'method', 'ctor', 'ctor', 'static', 'near-miss', 'wrong-first', 'plain', 'hidden',
-                                      'foreign', 'unprefixed', 'ctor-other-ret', 'ptrptr-first', 'value-first']))
+                                      'foreign', 'unprefixed', 'ctor-other-ret', 'ptrptr-first', 'value-first', 'foreign-first']))
         t = draw(st.sampled_from(types))
         sp = draw(st.sampled_from(symp))
         verb = draw(st.sampled_from(VERBS))
@@ -196,6 +196,10 @@ def build(case):
             name, ret, params = '%s_%s_%s' % (sp, us, verb), ty('void', 'void'), [param('self', T(cn, 2))]
         elif shape == 'value-first':
             name, ret, params = '%s_%s_%s' % (sp, us, verb), ty('void', 'void'), [param('v', ty('int')), self_p]
+        elif shape == 'foreign-first':
+            # carries the prefix of a type of an *included* namespace and takes it first: stays a function here
+            fo = [('object', 'GObject'), ('initially_unowned', 'GInitiallyUnowned'), ('closure', 'GClosure')][f['idx'] % 3]
+            name, ret, params = '%s_%s_%s' % (sp, fo[0], verb), ty('void', 'void'), [param('self', T(fo[1], 1))]
         elif shape == 'plain':
             name, ret, params = '%s_%s' % (sp, verb), ty('int'), [param('v', ty('int'))]
         elif shape == 'hidden':
@@ -373,6 +377,15 @@ def check_case(case, ctx):
                 if kind != 'method' or (owner.get(C + 'type') or owner.get(GLIB + 'type-name')) != f['cname']:
                     raise Violation('unambiguous-method-not-paired', '%s (first parameter %s*) emitted as %s of %r'
                                     % (name, f['cname'], kind, owner.get('name')))
+        if f['shape'] == 'ctor' and t is not None and t['kind'] in ('boxed', 'class') and len(cfg['sym']) == 1:
+            us = uscore(t['name'])
+            longer = [o for o in case['types'] if uscore(o['name']).startswith(us + '_')]
+            if not longer:
+                if kind != 'constructor' or (owner.get(C + 'type') or owner.get(GLIB + 'type-name')) != f['cname']:
+                    raise Violation('unambiguous-constructor-not-paired', '%s (returns %s*, a registered %s) emitted as %s of %r'
+                                    % (name, f['cname'], t['kind'], kind, owner.get('name')))
+        if f['shape'] == 'foreign-first' and owner is not ns:
+            raise Violation('function-attached-to-foreign-or-unrelated-type', '%s placed in %r' % (name, owner.get('name')))
         if owner is not ns:
             paired += 1
         elif f['shape'] in ('near-miss', 'wrong-first', 'ptrptr-first', 'value-first', 'ctor-other-ret'):
